@@ -134,6 +134,51 @@ def insertPool (p : Pool) : List Pool → List Pool
 
 def sortPools (ps : List Pool) : List Pool := ps.foldl (fun acc p => insertPool p acc) []
 
+/-! ### `walkConfiguredIPRanges`: the requested addresses which are configured, ascending
+
+  For every requested range `r`, in request order: every configured range is clipped against `r` at BOTH ends (empty
+  parts dropped), the parts are sorted ascending by first address (`sort.Slice`) and handed to `walkIPRanges`.
+  The two shapes are regenerated facts; the other branches are the "optimised" variant which collects the overlapping
+  configured ranges in pool order, clips only the outermost two ends and does not sort. -/
+
+/-- one configured range clipped against the requested range `r` at both ends -/
+def clipBoth (r : Range) (c : Range) : Option Range :=
+  if max c.first r.first ≤ min c.last r.last then some { first := max c.first r.first, last := min c.last r.last } else none
+
+/-- the variant: configured ranges overlapping `r`, as they are -/
+def overlapping (r : Range) (c : Range) : Option Range :=
+  if c.last < r.first ∨ r.last < c.first then none else some c
+
+def clipFirstLower (r : Range) : List Range → List Range
+  | [] => []
+  | c :: t => (if c.first < r.first then { c with first := r.first } else c) :: t
+
+def clipLastUpper (r : Range) : List Range → List Range
+  | [] => []
+  | [c] => [if r.last < c.last then { c with last := r.last } else c]
+  | c :: t => c :: clipLastUpper r t
+
+def insertRange (p : Range) : List Range → List Range
+  | [] => [p]
+  | q :: t => if p.first < q.first then p :: q :: t else q :: insertRange p t
+
+/-- `sort.Slice(parts, first ascending)` (insertion sort; the order of equal keys does not matter below) -/
+def sortRanges (l : List Range) : List Range := l.foldl (fun acc p => insertRange p acc) []
+
+def confRanges (ps : List Pool) : List Range := ps.flatMap (·.ranges)
+
+def partsOf (clampBoth sortAsc : Bool) (ps : List Pool) (r : Range) : List Range :=
+  let parts := if clampBoth then (confRanges ps).filterMap (clipBoth r)
+               else clipLastUpper r (clipFirstLower r ((confRanges ps).filterMap (overlapping r)))
+  if sortAsc then sortRanges parts else parts
+
+def walkConfiguredG (clampBoth sortAsc : Bool) (ps : List Pool) (rs : List Range) : List IP :=
+  rs.flatMap (fun r => walk (partsOf clampBoth sortAsc ps r))
+
+/-- the addresses `walkConfiguredIPRanges` visits, in order -/
+def walkConfigured (ps : List Pool) (rs : List Range) : List IP :=
+  walkConfiguredG Generated.Ipam.walkConfClampsBothEnds Generated.Ipam.walkConfSortsParts ps rs
+
 /-- every address of every pool, the walk of the last loop of `ConfigurePool` -/
 def poolAddrs (ps : List Pool) : List IP := ps.flatMap (fun p => walk p.ranges)
 
@@ -359,7 +404,7 @@ def releaseIPs (s : State) (req : List (IP × String)) (pl : Plan) : State × Ou
 def pickRanges (s : State) (subnet : String) : List (List Range) → List IP → Option (List IP)
   | [], picked => some picked
   | rs :: rest, picked =>
-    match (walk rs).find? (fun ip => decide (ip ∈ s.free) && hasSubnet s.pools ip subnet && !picked.contains ip) with
+    match (walkConfigured s.pools rs).find? (fun ip => decide (ip ∈ s.free) && hasSubnet s.pools ip subnet && !picked.contains ip) with
     | none => none
     | some ip => pickRanges s subnet rest (picked ++ [ip])
 
@@ -536,7 +581,7 @@ def first (s : State) (_key : String) (choice : Option IP) : Option Info :=
 def byKeyAndRanges (s : State) (key : String) (ranges : List (List Range)) : List (Option IP) :=
   match ranges with
   | [] => (s.alloc.keys.filter (hasKey s key)).map some
-  | _ => ranges.map (fun rs => (walk rs).find? (hasKey s key))
+  | _ => ranges.map (fun rs => (walkConfigured s.pools rs).find? (hasKey s key))
 
 /-- `NodeSubnet` -/
 def nodeSubnet (s : State) (nodeIP : IP) : Option String :=
@@ -551,7 +596,7 @@ def poolsWithFree (s : State) (ips : List IP) : List Pool :=
 def nsbrLoop (seedFirstOnly : Bool) (s : State) : List (List Range) → Nat → List String → Option (List String)
   | [], _, acc => some acc
   | rs :: rest, i, acc =>
-    let ps := poolsWithFree s (walk rs)
+    let ps := poolsWithFree s (walkConfigured s.pools rs)
     if ps.isEmpty then none
     else
       let part := subnetsOfPools ps
